@@ -28,10 +28,51 @@ def run(ck, prog):
         "are enumerated into decision tables with the unknown line as an abstract string (its stripped length a numeric "
         "atom, `first char is '>'` / `last char is '*'` uninterpreted booleans, the header flag a two-valued typestate) "
         "and compared with the stated tables by exact feasibility.")
+    ck.attempt(_parser_state, ck, prog)
     _valid_seq(ck, prog)
     _final(ck, prog)
     _line_loop(ck, prog)
     _ctor_branches(ck, prog)
+
+
+def _parser_state(ck, prog):
+    """STATE-carry: what a parse returns must come from this file alone.  (i) FLOW typestate per field of the parser object that parseSeqFile
+    (with the methods it calls on itself) writes: a use of the field before this call has assigned it reads what an earlier call left behind -
+    including a call that was abandoned by a `raise`.  (ii) whether the parser objects that parse files are created for the one call or shared
+    (module level / stored).  Carried state on a shared parser is the violation; on a fresh one it is unobservable."""
+    from lcsa import flow
+    from lcsa.eff import Effects
+    from lcsa.model import is_self_attr
+    f = prog.fn(FP, "SequenceFileParser.parseSeqFile")
+    E = Effects(prog)
+    written = {a.split(".")[0] for a in E.sum[f.key].self_writes}
+    carried = {}
+    for fld in sorted(written):
+        u = flow.used_before_assigned(f.body(), fld)
+        if u is not None:
+            carried[fld] = f.loc(u)
+    # who parses: receivers of parseSeqFile calls anywhere in the package
+    shared, fresh = [], []
+    for g in prog.all_funcs():
+        for n in ast.walk(g.node):
+            if isinstance(n, ast.Call) and isinstance(n.func, ast.Attribute) and n.func.attr == "parseSeqFile":
+                callee = prog.resolve_call(g, n)
+                if callee is None or callee.key != f.key:
+                    continue
+                r = n.func.value
+                local_new = isinstance(r, ast.Name) and any(isinstance(a, ast.Assign) and len(a.targets) == 1 and isinstance(a.targets[0], ast.Name) and a.targets[0].id == r.id
+                                                            and isinstance(a.value, ast.Call) and prog.class_of_ctor(g.mod, a.value) == "SequenceFileParser" for a in ast.walk(g.node)) \
+                    and r.id not in g.params()
+                inline_new = isinstance(r, ast.Call) and prog.class_of_ctor(g.mod, r) == "SequenceFileParser"
+                (fresh if (local_new or inline_new) else shared).append(g.loc(n))
+    ck.shape(bool(shared or fresh), "a call of SequenceFileParser.parseSeqFile somewhere in the package", f.loc())
+    construct = FP_PATH + ":SequenceFileParser.parseSeqFile"
+    ck.ob("STATE-carry", construct, not (carried and shared), expected="a parser that outlives one call keeps nothing from the previous file (every field is assigned before it is used)",
+          found={"used_before_assigned": carried, "parsers_that_outlive_a_call": shared} if (carried and shared) else {"fields": sorted(written), "fresh_parsers": len(fresh), "shared": len(shared)},
+          slot="leftover-state", where=f.loc(), note="a file rejected half-way leaves its fragments behind; the next file is parsed on top of them")
+    if carried and not shared:
+        ck.info("parseSeqFile uses %s before assigning it, but every parser is created for one call (unobservable)" % sorted(carried))
+    ck.count("parseSeqFile call sites", len(shared) + len(fresh))
 
 
 def _valid_seq(ck, prog):
@@ -85,7 +126,10 @@ def _final(ck, prog):
             ([("cmp", k, ">=", Rat.const(2))], "raise"),
             ([("cmp", k, "==", Rat.const(1)), last], "strip-last"),
             ([("cmp", k, "==", Rat.const(1)), ("not", last)], "raise")]
-    mis = compare_rows(rows, spec, positive=())
+    # the last character can only be '*' if the string contains one:  [seq[-1]=='*'] <= cnt[*]
+    from lcsa.lin import Lin
+    link = [Lin({"?seq[-1]=='*'": 1, "cnt[*]": -1}, 0, "<="), Lin({"cnt[*]": -1}, 0, "<=")]
+    mis = compare_rows(rows, spec, domain=link, positive=(), int_atoms={"cnt[*]", "?seq[-1]=='*'"})
     ck.ob("DT-asterisk", construct, mis is None,
           expected="no '*': unchanged; two or more: rejected; exactly one: stripped if last, else rejected",
           found=mis or "equivalent", slot="table", where=f.loc())
